@@ -3584,11 +3584,15 @@ class State:
 
             if not self.card_burning_status:
                 if Automation.HOLE_DEALING in self.automations:
-                    while any(self.hole_dealing_statuses):
+                    while (
+                            not self.card_burning_status
+                            and any(self.hole_dealing_statuses)
+                    ):
                         self.deal_hole()
 
                 if (
                         Automation.BOARD_DEALING in self.automations
+                        and not self.card_burning_status
                         and any(self.board_dealing_counts)
                 ):
                     self.deal_board()
